@@ -22,11 +22,11 @@ From Coq Require Import ZArith NArith List Bool Lia.
 From Spec Require Import ISA Spec816.
 From Lib Require Import ZOps Machine.
 From Snapshot Require Import GenFields GenCpu65.
-From Props Require Import C01Base C01Flow C01MemRefs C01OpsA C01OpsB C01OpsC C01OpsD C01OpsE C01OpsF C01OpsG C01OpsH C01OpsI C01OpsJ C01OpsK C01Shift.
+From Props Require Import C01Base C01Flow C01MemRefs C01OpsA C01OpsB C01OpsC C01OpsD C01OpsE C01OpsF C01OpsG C01OpsH C01OpsI C01OpsJ C01OpsK C01Shift C01StkFlags C01StkPull C01StkPush.
 Import ListNotations.
 Local Open Scope Z_scope.
 
-Definition proved_opcodes : list Z := [1; 3; 4; 5; 6; 7; 9; 10; 12; 13; 14; 15; 16; 17; 18; 19; 20; 21; 22; 23; 24; 25; 26; 27; 28; 29; 30; 31; 33; 35; 36; 37; 38; 39; 41; 42; 44; 45; 46; 47; 48; 49; 50; 51; 52; 53; 54; 55; 56; 57; 58; 59; 60; 61; 62; 63; 65; 67; 69; 70; 71; 73; 74; 77; 78; 79; 80; 81; 82; 83; 85; 86; 87; 88; 89; 91; 93; 94; 95; 100; 102; 106; 110; 112; 116; 118; 120; 123; 126; 128; 129; 131; 132; 133; 134; 135; 136; 137; 138; 140; 141; 142; 143; 144; 145; 146; 147; 148; 149; 150; 151; 152; 153; 154; 155; 156; 157; 158; 159; 160; 161; 162; 163; 164; 165; 166; 167; 168; 169; 170; 172; 173; 174; 175; 176; 177; 178; 179; 180; 181; 182; 183; 184; 185; 186; 187; 188; 189; 190; 191; 192; 193; 195; 196; 197; 198; 199; 200; 201; 202; 203; 204; 205; 206; 207; 208; 209; 210; 211; 213; 214; 215; 216; 217; 219; 221; 222; 223; 224; 228; 230; 232; 234; 235; 236; 238; 240; 246; 248; 254].
+Definition proved_opcodes : list Z := [1; 3; 4; 5; 6; 7; 8; 9; 10; 11; 12; 13; 14; 15; 16; 17; 18; 19; 20; 21; 22; 23; 24; 25; 26; 27; 28; 29; 30; 31; 33; 35; 36; 37; 38; 39; 40; 41; 42; 43; 44; 45; 46; 47; 48; 49; 50; 51; 52; 53; 54; 55; 56; 57; 58; 59; 60; 61; 62; 63; 65; 67; 69; 70; 71; 72; 73; 74; 75; 77; 78; 79; 80; 81; 82; 83; 85; 86; 87; 88; 89; 90; 91; 93; 94; 95; 98; 100; 102; 104; 106; 110; 112; 116; 118; 120; 122; 123; 126; 128; 129; 131; 132; 133; 134; 135; 136; 137; 138; 139; 140; 141; 142; 143; 144; 145; 146; 147; 148; 149; 150; 151; 152; 153; 154; 155; 156; 157; 158; 159; 160; 161; 162; 163; 164; 165; 166; 167; 168; 169; 170; 171; 172; 173; 174; 175; 176; 177; 178; 179; 180; 181; 182; 183; 184; 185; 186; 187; 188; 189; 190; 191; 192; 193; 194; 195; 196; 197; 198; 199; 200; 201; 202; 203; 204; 205; 206; 207; 208; 209; 210; 211; 212; 213; 214; 215; 216; 217; 218; 219; 221; 222; 223; 224; 226; 228; 230; 232; 234; 235; 236; 238; 240; 244; 246; 248; 250; 251; 254].
 
 Definition C01_step_partial_statement : Prop :=
   forall op, In op proved_opcodes ->
@@ -43,8 +43,10 @@ Proof.
       exact ref_05 |
       exact ref_06 |
       exact ref_07 |
+      exact ref_08 |
       exact ref_09 |
       exact ref_0A |
+      exact ref_0B |
       exact ref_0C |
       exact ref_0D |
       exact ref_0E |
@@ -71,8 +73,10 @@ Proof.
       exact ref_25 |
       exact ref_26 |
       exact ref_27 |
+      exact ref_28 |
       exact ref_29 |
       exact ref_2A |
+      exact ref_2B |
       exact ref_2C |
       exact ref_2D |
       exact ref_2E |
@@ -98,8 +102,10 @@ Proof.
       exact ref_45 |
       exact ref_46 |
       exact ref_47 |
+      exact ref_48 |
       exact ref_49 |
       exact ref_4A |
+      exact ref_4B |
       exact ref_4D |
       exact ref_4E |
       exact ref_4F |
@@ -112,18 +118,22 @@ Proof.
       exact ref_57 |
       exact ref_58 |
       exact ref_59 |
+      exact ref_5A |
       exact ref_5B |
       exact ref_5D |
       exact ref_5E |
       exact ref_5F |
+      exact ref_62 |
       exact ref_64 |
       exact ref_66 |
+      exact ref_68 |
       exact ref_6A |
       exact ref_6E |
       exact ref_70 |
       exact ref_74 |
       exact ref_76 |
       exact ref_78 |
+      exact ref_7A |
       exact ref_7B |
       exact ref_7E |
       exact ref_80 |
@@ -136,6 +146,7 @@ Proof.
       exact ref_88 |
       exact ref_89 |
       exact ref_8A |
+      exact ref_8B |
       exact ref_8C |
       exact ref_8D |
       exact ref_8E |
@@ -167,6 +178,7 @@ Proof.
       exact ref_A8 |
       exact ref_A9 |
       exact ref_AA |
+      exact ref_AB |
       exact ref_AC |
       exact ref_AD |
       exact ref_AE |
@@ -189,6 +201,7 @@ Proof.
       exact ref_BF |
       exact ref_C0 |
       exact ref_C1 |
+      exact ref_C2 |
       exact ref_C3 |
       exact ref_C4 |
       exact ref_C5 |
@@ -206,16 +219,19 @@ Proof.
       exact ref_D1 |
       exact ref_D2 |
       exact ref_D3 |
+      exact ref_D4 |
       exact ref_D5 |
       exact ref_D6 |
       exact ref_D7 |
       exact ref_D8 |
       exact ref_D9 |
+      exact ref_DA |
       exact ref_DB |
       exact ref_DD |
       exact ref_DE |
       exact ref_DF |
       exact ref_E0 |
+      exact ref_E2 |
       exact ref_E4 |
       exact ref_E6 |
       exact ref_E8 |
@@ -224,8 +240,11 @@ Proof.
       exact ref_EC |
       exact ref_EE |
       exact ref_F0 |
+      exact ref_F4 |
       exact ref_F6 |
       exact ref_F8 |
+      exact ref_FA |
+      exact ref_FB |
       exact ref_FE ] | ]).
   contradiction.
 Qed.
